@@ -394,6 +394,17 @@ func c13MapStr(m [][2]int) string {
 }
 
 func genC13(g *Gen) {
+	// Range far from zero (beyond float64's 53 bits of integer precision): short progressions
+	if g.Mine() {
+		var ops []string
+		for _, base := range []int{1<<53 + 1, 1<<60 + 3, 1<<48 + 1, 1<<62 - 5} {
+			for _, st := range []int{1, 3} {
+				ops = append(ops, "range "+ints([]int{base, st, base + 7}), "rangeright "+ints([]int{base, st, base + 7}),
+					"range "+ints([]int{-base, st, -base - 7}), "range "+ints([]int{base, base + 3}))
+			}
+		}
+		g.Emit("c13", nil, ops)
+	}
 	// long inputs (lengths incl. thresholds a change introduced into the source)
 	for li, n := range longLens(g.Thorough()) {
 		if !g.Mine() {
